@@ -540,5 +540,8 @@ void register_narrow();
 void register_narrow_mixed_a();
 void register_narrow_mixed_b();
 void register_strided_vec();
+void register_strided_vec4();
+void register_strided_dim();
 void register_strided_mat();
+void register_strided_mat3();
 }
